@@ -30,6 +30,7 @@ def check(ctx):
     ctx.rule("R2", "no content-changing string operation is applied to the joined text in regions that can lie inside a token", floor=1)
     ctx.rule("R4", "between two words of a subprocess command the formatter neither creates nor removes a gap: every constant spacing decision is taken outside subprocess context, or agrees with the gap in the source (a gap separates two arguments, no gap joins them: `host:/path`, `a,b`, `if=/dev/zero`)", floor=8)
     ctx.rule("R5", "the formatter's text is decoded once: bytes it encodes itself are tokenized with that very encoding, not with one re-detected from a coding cookie inside the text", floor=1)
+    ctx.rule("R6", "what the formatter remembers from one token to the next (indent step, line flags, depths) is computed from tokens, its own settings and constants - never from raw rows of the source text: a row can be a bracket continuation or lie inside a string, which only the tokenizer knows (an indent step read off such a row moves own-line comments further on every pass)", floor=15)
     ctx.rule("R3", "a file is rewritten only after format_source returned normally and changed the text; tokenizer errors become FormatError and are reported without writing", floor=5)
 
     co = ctx.repo.module(CO)
@@ -206,7 +207,8 @@ def check(ctx):
 
     ok = bool(calls) and all(_enclosing_try_with_handler(c, {"FormatError"}, mn)[0] is not None for c in calls)
     ctx.ob("R3", f"{CL}:main", "a FormatError from one file is reported and counted, never propagated into a write", ok, key="main|format-error-handler")
-
+    _spacing(ctx, co)
+    _state_from_tokens_only(ctx)
     _spacing(ctx, co)
     # ---- R5: encode(E) ... tokenize(bytes) re-detects the encoding from a PEP 263 cookie; the text was decoded already
     it = co.func("_Formatter._iter_tokens")
@@ -351,6 +353,73 @@ def _spacing(ctx, co):
     if len(sites) < 8:
         raise AnalysisError(f"{st}: only {len(sites)} constant spacing decisions enumerated")
 
+
+
+def _verbatim(e, defs, RAW, depth=0):
+    """e is a piece of the raw text itself (row, slice of a row, concatenation of such pieces and constants) -
+    as opposed to something measured on or decided from it (a length, a test, a count)"""
+    if depth > 6:
+        return False
+    if isinstance(e, ast.Constant):
+        return isinstance(e.value, str)
+    if isinstance(e, ast.Attribute):
+        return unparse(e) in RAW
+    if isinstance(e, ast.Subscript):
+        return _verbatim(e.value, defs, RAW, depth + 1)
+    if isinstance(e, ast.BinOp) and isinstance(e.op, ast.Add):
+        return _verbatim(e.left, defs, RAW, depth + 1) and _verbatim(e.right, defs, RAW, depth + 1)
+    if isinstance(e, ast.Name):
+        ds = defs.get(e.id, [])
+        if not ds:
+            return False
+        for d in ds:
+            if d.kind == "for" and d.value is not None:
+                if not _verbatim(d.value, defs, RAW, depth + 1):
+                    return False
+            elif d.value is None or not _verbatim(d.value, defs, RAW, depth + 1):
+                return False
+        return True
+    return False
+
+
+def _state_from_tokens_only(ctx):
+    from ..engine.loader import class_methods
+
+    co = ctx.repo.module(CO)
+    ms = class_methods(co.cls("_Formatter"))
+    init = ms.get("__init__")
+    if init is None:
+        raise AnchorMissing(f"{CO}:_Formatter.__init__")
+    # the raw text and everything __init__ derives from it (the row table)
+    srcp = param_name(init, 0)
+    idefs = df.all_defs(init)
+    RAW = set()
+    for a in walk_local(init):
+        if isinstance(a, (ast.Assign, ast.AnnAssign)) and getattr(a, "value", None) is not None:
+            ts = a.targets if isinstance(a, ast.Assign) else [a.target]
+            for t in ts:
+                if isinstance(t, ast.Attribute) and unparse(t.value) == "self" and any(k == "param" and v == srcp for k, v in df.leaves(idefs, a.value)):
+                    RAW.add(f"self.{t.attr}")
+    if not RAW:
+        raise AnalysisError(f"{CO}:_Formatter.__init__ keeps no attribute derived from the source text `{srcp}`")
+    n = 0
+    for nm, f in ms.items():
+        if nm == "__init__":
+            continue
+        ff = flat(ctx, f, 2)
+        defs = df.all_defs(ff)
+        for a in walk_local(ff):
+            if not isinstance(a, (ast.Assign, ast.AugAssign, ast.AnnAssign)) or getattr(a, "value", None) is None:
+                continue
+            ts = a.targets if isinstance(a, ast.Assign) else [a.target]
+            for t in ts:
+                if isinstance(t, ast.Attribute) and unparse(t.value) == "self":
+                    lv = df.leaves(defs, a.value, depth=8)
+                    bad = sorted({v for k, v in lv if any(v == r_ or v.startswith(r_ + "[") or v.startswith(r_ + ".") for r_ in RAW)})
+                    if bad and _verbatim(a.value, defs, RAW):
+                        bad = []  # a piece of the source kept for verbatim re-emission is not a decision taken from it
+                    n += 1
+                    ctx.ob("R6", f"{CO}:_Formatter.{nm}", f"`{short(a, 60)}`: state kept across tokens is not computed from raw source rows", not bad, key=f"{nm}|state-from-raw-rows|{t.attr}", where=loc(a), detail=f"derived from {bad}" if bad else None)
 
 META = {
     "technique": "static analysis: return-shape/provenance check of the token renderer, operation whitelist over the joined text, CFG dominance and guard facts before the write-back",
